@@ -77,6 +77,7 @@ class View:
         cur = {'index': 0, 'segments': [], 'dump': None, 'reapplied': True}
         self.epochs.append(cur)
         prev_solver = None
+        cur_eta = list(self.eta)
         self.aborted = H.get('aborted_at') is not None
         for rec in H['ops']:
             op = scn['schedule'][rec['i']]
@@ -95,6 +96,7 @@ class View:
                     'rule_calls_from': rec.get('rule_calls_from'),
                     'T_presented': rec.get('T_presented'),
                     'dump': rec['dump'],
+                    'eta': list(cur_eta),
                 }
                 prev_solver = rec['solver_id']
                 cur['segments'].append(seg)
@@ -104,6 +106,14 @@ class View:
                     cur = {'index': cur['index'] + 1, 'segments': [],
                            'dump': None, 'reapplied': bool(op.get('reapply'))}
                     self.epochs.append(cur)
+            elif rec['op'] == 'redeclare' and rec['exc'] is None:
+                # an efficiency re-declared between two runs (same pair):
+                # later segments use the new value
+                d = op['decl']
+                self.model.apply(d)
+                if d['s'] in self.chain:
+                    cur_eta[self.chain.index(d['s'])] = self.model.eff[d['s']]
+                self.stats['redeclared_between_runs'] += 1
             elif rec['op'] == 'set_pwm':
                 pass
 
@@ -132,6 +142,10 @@ class View:
                     if x is None or not math.isfinite(x) or abs(x) > 1e150:
                         return False
         return True
+
+    def eta_at(self, ep, k):
+        seg = self.seg_of(ep, k)
+        return seg['eta'] if seg is not None else self.eta
 
     def seg_of(self, ep, k):
         for s in ep['segments']:
@@ -324,7 +338,7 @@ def decision_margins(view, ep, k):
                 tb = si.q_si('Angle', rule['brake'])
                 L0 = view.series(ep, 0, LTQ)[k]
                 eta_t = 1.0
-                for x in view.eta[1:]:
+                for x in view.eta_at(ep, k)[1:]:
                     eta_t *= x
                 err = L0 / view.mot['Tmax'] * tb / eta_t
                 ths = tg - tb + err
